@@ -294,7 +294,7 @@ func c05ASCII(s string) bool {
 
 func runC05(e *env) {
 	s := &c05State{e: e, names: map[int]string{}, par: 4, seen: map[string]bool{}}
-	e.res.Rule = "inputs: (1) /repo/testdata files, their soydoc+template chunks and every string literal of the repository's *_test.go files, whole, in file mode (literals also in expression mode); (2) every prefix of every chunk and literal up to 700 bytes, sampled prefixes of the larger ones and of the files (all prefixes for the oracle in the thorough tier); (3) every sequence of up to 2 tags (3 in the thorough tier, sampled one tag longer) from a dictionary of about 190 tags and tag fragments (all commands in their usual forms, special characters, comments, soydoc, header params, text, unclosed pieces) at file level, template level and inside if/foreach/msg; (4) token deletions, duplications and swaps of the chunks and of a list of about 190 expressions; (5) random byte strings: uniform bytes, and concatenations of lexer-relevant pieces including stray continuation bytes, truncated multi-byte sequences, surrogates, 0xFF, non-ASCII letters and digits. Compared: item type, end position and text (text not for error items) of parse.VerifLex against the extracted Coq lexer; oracle: parse.SoyFile / parse.Expr returns a tree or an error (no panic, crash or hang). Non-trivial = the input contains one of { } / ' \" \\ $ @ or a non-ASCII byte; distinct by mode and input."
+	e.res.Rule = "inputs: (1) /repo/testdata files, their soydoc+template chunks and every string literal of the repository's *_test.go files, whole, in file mode (literals also in expression mode); (2) every prefix of every chunk and literal up to 700 bytes, sampled prefixes of the larger ones and of the files (all prefixes for the oracle in the thorough tier); (3) every sequence of up to 2 tags (3 in the thorough tier, sampled one tag longer) from a dictionary of about 190 tags and tag fragments (all commands in their usual forms, special characters, comments, soydoc, header params, text, unclosed pieces) at file level, template level and inside if/foreach/msg; (4) token deletions, duplications and swaps of the chunks and of a list of about 190 expressions; (5) random byte strings: uniform bytes, and concatenations of lexer-relevant pieces including stray continuation bytes, truncated multi-byte sequences, surrogates, 0xFF, non-ASCII letters and digits; (6) string literals, systematically (c05strings.go): every escape form of parse/quote.go and the forms it rejects at every position of short strings, every ordered pair of forms, \\uXXXX with a value of every class (UTF-8 length boundaries, both ends of both surrogate ranges, runes that are syntax characters; upper-, lower-, mixed-case digits) followed by 0..6 characters of every kind (plain, hex digits, multi-byte runes, simple escapes, every prefix of a second \\uXXXX of every class), truncated and malformed \\u escapes, each body as an expression and as a printed literal (closed, and cut off at the end of the input), as a map key at both entry points, as a double-quoted attribute value and as a literal inside a quoted attribute expression, and a core subset also as map value, function / directive argument, case value, double-quoted expression string, unclosed attribute value, attribute expression, param value and map key inside an attribute expression. Compared: item type, end position and text (text not for error items) of parse.VerifLex against the extracted Coq lexer; oracle: parse.SoyFile / parse.Expr returns a tree or an error (no panic, crash or hang). Non-trivial = the input contains one of { } / ' \" \\ $ @ or a non-ASCII byte; distinct by mode and input."
 	var tbl struct {
 		ItemTypes map[string]int `json:"item_types"`
 	}
@@ -528,6 +528,25 @@ func runC05(e *env) {
 	s.check(ins, true)
 	s.check(insOracle, false)
 
+	// (4c) string literals: every escape form of parse/quote.go at every position, \u escapes of every value
+	//      class followed by 0..6 characters of every kind, truncated escapes, closed and cut off, in every
+	//      syntactic position of a quoted string (c05strings.go)
+	{
+		sins, nCore, nRest := c05StringInputs()
+		e.res.Histogram["dictionary:string-bodies-all-contexts"] = nCore
+		e.res.Histogram["dictionary:string-bodies-main-contexts"] = nRest
+		ins, insOracle = nil, nil
+		for i, in := range sins {
+			if thorough || i%c05StringLexEvery == 0 {
+				ins = append(ins, in)
+			} else {
+				insOracle = append(insOracle, in)
+			}
+		}
+		s.check(ins, true)
+		s.check(insOracle, false)
+	}
+
 	// (5) random bytes
 	ins = nil
 	for k := 0; k < 16000*e.scale; k++ {
@@ -562,7 +581,7 @@ func c05ParserTie(s *c05State) {
 			keep = append(keep, c)
 		}
 	}
-	cases = keep
+	cases = append(keep, c05StringTieCases()...)
 	res := ptRun(e, cases, 2000, c05BatchTimeout)
 	var reqs []string
 	var idx []int
